@@ -167,6 +167,19 @@ def lookup (s : State) (b : Block) : String :=
     | some (t', n) => t'.hash = t.hash ∧ n = b.header.height | none => false).length
   s!"byhash={byHash} byheight={byHeight} header={hdr} contains={cont} txs={ntx}/{b.txs.length}"
 
+/-- `fast`: honest empty blocks at the next heights, signed by the whole set in force -/
+def fastAdd (p : Params) (ts0 lastCfg : Nat) : Nat → List Hash → State → Except (String) State
+  | _, [], s => .ok s
+  | i, h :: hs, s =>
+    let b : Block := { header := { height := s.mem.currHeight + 1, hash := h, prev := s.mem.currHash, timestamp := ts0 + i,
+                                   blockRoot := treeRoot p (s.mem.blockTree ++ [s.mem.currHash]),
+                                   bookkeepers := s.mem.peersB.foldr insertSorted [],
+                                   sigs := (s.mem.peersB.foldr insertSorted []).map fun k => [1, k.toUInt8],
+                                   newCfg := none, lastCfg := lastCfg }, txs := [] }
+    match addBlock p s b (executeBlock p s b).2 with
+    | .ok s' => fastAdd p ts0 lastCfg (i + 1) hs s'
+    | .error e => .error s!"err:{errName e}@{i}"
+
 def step (w : World) (toks : List String) : World × String :=
   match toks with
   | ["genesis", n, net, ev, ts, txs, hash, _twin] =>
@@ -181,6 +194,21 @@ def step (w : World) (toks : List String) : World × String :=
       | .ok s => ({ w' with st := some s }, "ok " ++ observe p s)
       | .error e => (w', "err:" ++ errName e)
     | _, _, _, _ => (w, "bad-op")
+  | ["gcrash", n, net, ev, ts, txs, hash, _twin, k] =>
+    -- the first start is stopped at crash point k of the genesis block's submitBlock; second start on the same directory
+    match n.toNat?, ts.toNat?, parseTxs txs, Hex.ofHex hash, k.toNat? with
+    | some n, some ts, some txs, some hash, some k =>
+      let g : Block := { header := { height := 0, hash := hash, prev := zeroHash, timestamp := ts, blockRoot := zeroHash,
+                                     bookkeepers := [], sigs := [], newCfg := some (List.range n), lastCfg := 0 }, txs := txs }
+      let netId : Int := if net == "main" then 1 else 2
+      let p := mkParams netId (ev == "1")
+      let w' : World := { st := none, dead := none, blocks := [("g", g)], gen := some g, net := netId, ev := ev == "1" }
+      let s0 : State := { dur := Durable.empty, mem := emptyMem }
+      let d := persisted s0.dur (fillAll p s0 g (executeBlock p s0 g).1) k
+      match reopen p g d with
+      | .ok s => ({ w' with st := some s }, "crashed ok " ++ observe p s)
+      | .error e => ({ w' with dead := some ("err:" ++ errName e) }, "crashed err:" ++ errName e)
+    | _, _, _, _, _ => (w, "bad-op")
   | ["blk", name, h, prev, ts, root, txs, bks, sigs, cfg, lastCfg, hash] =>
     let sg : Option (List Sig) := if sigs == "-" then some [] else (splitOn1 sigs ',').mapM sigOfToken
     let cf : Option (Option (List Nat)) :=
@@ -200,6 +228,19 @@ def step (w : World) (toks : List String) : World × String :=
     | none => (w, "bad-op:no-ledger")
     | some g =>
     match op, args, w.st with
+    | "fast", ts0 :: lc :: hashes, some s =>
+      match ts0.toNat?, lc.toNat?, hashes.mapM Hex.ofHex with
+      | some ts0, some lc, some hs =>
+        match fastAdd p ts0 lc 0 hs s with
+        | .ok s' =>
+          let named := (hs.zipIdx.map fun (h, i) => (s!"f{s.mem.currHeight + 1 + i}", h))
+          let blocks' := named.foldl (fun acc (nh : String × Hash) =>
+            match s'.dur.blocks.blockAt nh.2 with
+            | some b => (nh.1, b) :: acc
+            | none => acc) w.blocks
+          ({ w with st := some s', blocks := blocks' }, "ok " ++ observe p s')
+        | .error e => (w, e)
+      | _, _, _ => (w, "bad-op")
     | "obs", [], some s => (w, observe p s)
     | "obs", [], none => (w, "closed:" ++ w.dead.getD "")
     | "reopen", [], some s =>
